@@ -97,6 +97,7 @@ impl Prop for Structured {
         let opts = GenOpts {
             functions: self.functions,
             faults: true,
+            lib_calls: true,
             avoid_forin_return: avoid.iter().any(|a| a == "return_or_call_inside_forin_body"),
             avoid_fullname_else: avoid.iter().any(|a| a == "fullname_else"),
             ..Default::default()
